@@ -21,7 +21,9 @@ from . import common
 NAMES = ['LB', 'LD', 'LA', 'LC', 'LE', 'LF']   # display names: deliberately not in index order
 # names that only differ in letter case, are prefixes of each other, or sort differently as text and as numbers
 TRICKY = ['LA', 'La', 'lA', 'la', 'LB', 'Lb', 'L', 'LL', 'L1', 'L10', 'L2', 'L_', '_L', 'Z', 'a', 'LAa', 'DBLayer',
-          'DbLayer']
+          'DbLayer',
+          # leading zeros (number-aware keys tie), regular-expression metacharacters (free-text names of instance layers)
+          'S1', 'S01', 'S001', 'S10', 'L.A', 'LXA', 'L+', 'L(1)', 'L:F', 'L[A]', 'L|A']
 
 
 def build(case):
